@@ -23,12 +23,13 @@ F_ArrHeaps == SeqsUpTo(AllDescr, 4)
 \* chain instances: a few heaps, any operands, in-place chains after the free step
 Q_ChainHeaps == { <<"Signal", "IntensitySignal", "arr">>,
                   <<"BasebandSignal", "IntensitySignal", "qty">> }
-F_ChainHeaps == { <<"Signal", "IntensitySignal", "arr", "qty">>,
-                  <<"IntensitySignal", "FullStokesSignal", "RadioSignal", "scal">>,
-                  <<"BasebandSignal", "IntensitySignal", "scal", "dask">>,
-                  <<"DualPolarizationSignal", "BasebandSignal", "arr", "qty">>,
-                  <<"Signal", "Signal", "arr", "scal">>,
-                  <<"RadioSignal", "DualPolarizationSignal", "FullStokesSignal", "arr">> }
+F_ChainHeaps == { <<"Signal", "IntensitySignal", "arr">>,
+                  <<"BasebandSignal", "IntensitySignal", "qty">>,
+                  <<"IntensitySignal", "FullStokesSignal", "scal">>,
+                  <<"DualPolarizationSignal", "BasebandSignal", "dask">>,
+                  <<"RadioSignal", "FullStokesSignal", "Signal", "arr">>,
+                  <<"Signal", "Signal", "qty", "arr">> }
+F_ChainUfuncs == {U_neg, U_add, U_modf, U_matmul}
 \* in-place chains for replay (no free step)
 G_ChainHeaps == { <<"Signal", "IntensitySignal", "arr", "scal">>,
                   <<"IntensitySignal", "FullStokesSignal", "qty", "arr">>,
